@@ -20,6 +20,7 @@ use crate::l2_shift::*;
 use crate::l3_mul::*;
 use crate::l3_div_ct::*;
 use crate::l4_modular::*;
+use crate::l4_invmod::*;
 use crate::l5_monty::*;
 use crate::l6_montyform::*;
 verus! {
